@@ -243,6 +243,24 @@ def run (ctx):
   # state that is kept in step with it.  Two directed links share both their end ports, so state that forgets a port whenever
   # *one* link on it is removed is out of step as soon as one direction of a link expires.
   iep = disc.methods.get('is_edge_port')
+  if iep is not None and len(iep.params) >= 3:
+    # by evaluation on a sample adjacency with one one-way link 1.1 -> 2.1: both of its ends are inter-switch ports, any other port is an edge
+    gi_ = q.cfg_of(iep)
+    link_ = q.Rec(dpid1=1, port1=1, dpid2=2, port2=1)
+    res_ = {}
+    for (d_, p_) in ((1, 1), (2, 1), (1, 2), (3, 1)):
+      outs_ = set()
+      for pth_, e_ in q.paths_under(repo, dmod, gi_, q.Env({'self.adjacency': [link_], iep.params[1]: d_, iep.params[2]: p_}), gi_.entry, [n_ for n_ in gi_.nodes if n_.kind == 'return'], disc, limit=40):
+        try: outs_.add(bool(q.eval_env2(repo, dmod, pth_[-1].ast.value, e_, disc)))
+        except Exception: outs_.add('?')
+      res_[(d_, p_)] = list(outs_)[0] if len(outs_) == 1 else '?'
+    want_ = {(1, 1): False, (2, 1): False, (1, 2): True, (3, 1): True}
+    if '?' in res_.values():
+      ctx.undecided('R-AGREE', iep, "both ends of a discovered link are inter-switch ports (sample adjacency)", "not evaluable: %s" % res_, iep, 'D3')
+    else:
+      ctx.ob('R-AGREE', iep, "both ends of a discovered link are inter-switch ports (sample adjacency)", res_ == want_, "one-way link 1.1 -> 2.1: neither end is an edge port" if res_ == want_ else
+             "with the single link 1.1 -> 2.1 in the adjacency is_edge_port gives %s, expected %s: the sending end of a link discovered in one direction only counts as host-facing and keeps flooding off the tree - "
+             "flooded frames loop" % (sorted(res_.items()), sorted(want_.items())), iep, 'D3')
   if iep is not None:
     ctx.analysed(iep)
     reads = set(x.attr for x in ast.walk(iep.node) if isinstance(x, ast.Attribute) and norm(x.value) == 'self' and isinstance(x.ctx, ast.Load))
